@@ -222,8 +222,15 @@ class Seq:
             v = r.choice([("i", 42), ("s", b"from script"), ("n", d2bits(0.5)), ("b", True), ("null", "i", 0), ("null", "s", 0)])
             text = "%s = %s;" % (name, {"null": {"i": "int()", "s": "str()"}.get(v[1], "null")}.get(v[0]) if v[0] == "null" else self.lit(v))
             mv = v
-        elif kind < 0.8:
+        elif kind < 0.65:
             text = "%s = tab(3, 7); %s.put(1, 9);" % (name, name); mv = ("t", "i", 1, [("i", 7), ("i", 9), ("i", 7)])
+        elif kind < 0.72:
+            # a table OF TUPLES has major type tuple but is a table: only bloc_table may accept it
+            text = '%s = tab(2, tup(1, "x"));' % name; mv = ("t", "r", 1, [("r", [("i", 1), ("s", b"x")]), ("r", [("i", 1), ("s", b"x")])])
+        elif kind < 0.76:
+            text = '%s = tab(2, "s");' % name; mv = ("t", "s", 1, [("s", b"s"), ("s", b"s")])
+        elif kind < 0.8:
+            text = "%s = tab(2, tab(1, true));" % name; mv = ("t", "b", 2, [("t", "b", 1, [("b", True)]), ("t", "b", 1, [("b", True)])])
         else:
             text = '%s = tup(1, "two", 2.5, true, raw(2, 65));' % name; mv = ("r", [("i", 1), ("s", b"two"), ("n", d2bits(2.5)), ("b", True), ("x", b"AA")])
         xid = self.nx; self.nx += 1
